@@ -586,13 +586,17 @@ def tolerances(cfg, min_cos=1.0):
     """geometric tolerance (mm) and wavefront tolerance (waves): a few thousand ulp of the path length,
     divided by the squared direction cosine of the steepest ray at the image plane (the conditioning of
     `where does this ray cross the plane`)"""
-    tol_mm = 4096 * ULP * cfg['scale'] / max(min_cos, 0.05) ** 2
-    if cfg.get('entry') == 'asphere':
-        # entered through the even-asphere type with the factory's iteration tolerance (1e-6 mm): "numerical
-        # precision" is the declared tolerance of the intersection
-        tol_mm = max(tol_mm, ASPHERE_DEFAULT_TOL)
+    c2 = max(min_cos, 0.05) ** 2
+    tol_mm = 4096 * ULP * cfg['scale'] / c2
     # the wavefront adds the cancellation  opd - n * (distance back to the reference sphere): 4x the budget
-    return tol_mm, 4 * tol_mm / (WL * 1e-3)
+    tol_w = 4 * tol_mm / (WL * 1e-3)
+    if cfg.get('entry') == 'asphere':
+        # entered through the even-asphere type with the factory's iteration tolerance (1e-6 mm in sag): "numerical
+        # precision" is that declared tolerance, seen through the lever of the mirror (x10) and the obliquity at the
+        # image plane for the ray position; the optical path is stationary in it (Fermat), so the wavefront keeps 1x
+        tol_mm = max(tol_mm, 10 * ASPHERE_DEFAULT_TOL / c2)
+        tol_w = max(tol_w, 4 * ASPHERE_DEFAULT_TOL / c2 / (WL * 1e-3))
+    return tol_mm, tol_w
 
 
 def oracle(cfg, rng, n_rays=24, wavefront=True, psf=True, samplings=None):
